@@ -12,6 +12,15 @@ from billiard import reduction                    # noqa: E402
 from billiard import util as butil                # noqa: E402
 vos.bind_billiard()
 
+# ``Connection._read = os.read`` is a builtin in the real world and therefore
+# does not bind ``self`` when reached through an instance; the virtual
+# replacements are Python functions and would.
+from billiard import connection as _bconn         # noqa: E402
+for _n in ('_read', '_write'):
+    _f = _bconn.Connection.__dict__.get(_n)
+    if _f is not None and not isinstance(_f, staticmethod):
+        setattr(_bconn.Connection, _n, staticmethod(_f))
+
 import logging as _logging                        # noqa: E402
 _lg = butil.get_logger()
 _lg.addHandler(_logging.NullHandler())
